@@ -44,7 +44,8 @@ def apply_script(base, script, typool):
             a.update(touch=e["name"], list="structures")
             touched.add(e["name"])
         elif k == "AddProperty":
-            p = {"name": e["name"], "type": copy.deepcopy(typool[e["ty"]])}
+            pname = e["name"] if e["name"] != "@self" else e["target"][0].lower() + e["target"][1:]
+            p = {"name": pname, "type": copy.deepcopy(typool[e["ty"]])}
             if e["optional"]:
                 p["optional"] = True
             struct(d, e["target"])["properties"].append(p)
@@ -218,7 +219,7 @@ def one_model(args):
             for f in fl:
                 fail("dotnet", f["c"], f["pos"])
         # 5. test vectors: on a reference-closed sub-model that contains the touched messages (quick) or the evolved model (thorough identity)
-        sub = vector_submodel(evolved, script)
+        sub = vector_submodel(evolved, script, touched)
         spath = os.path.join(work, "sub.json")
         json.dump(sub, open(spath, "w"))
         rc, log, o = run_plugin("testdata", spath, work, alt=idx % 2 == 1)
@@ -239,13 +240,52 @@ def check_c18_schema_invalid(doc):
     return schema_invalid(doc)
 
 
-def vector_submodel(evolved, script):
-    """Reference-closed sub-model: the new / a few existing messages and everything they mention."""
+def closure_of(evolved, msg, by):
+    need, done = set(), set()
+    for key in ("params", "result", "partialResult", "registrationOptions", "errorData"):
+        if isinstance(msg.get(key), dict):
+            check_gen.referenced(msg[key], need)
+    while need - done:
+        n = (need - done).pop()
+        done.add(n)
+        if n in by:
+            l, d = by[n]
+            if l == "structures":
+                for p in d["properties"]:
+                    check_gen.referenced(p["type"], need)
+                for e in d.get("extends", []) + d.get("mixins", []):
+                    check_gen.referenced(e, need)
+            elif l == "typeAliases":
+                check_gen.referenced(d["type"], need)
+    return done
+
+
+def vector_submodel(evolved, script, touched=()):
+    """Reference-closed sub-model: the new / a few existing messages, up to two messages that REACH each touched
+    declaration (so that the vectors exercise the edit), and everything they mention."""
     base = check_gen.closed_submodel(evolved)
     have_r = {r["method"] for r in base["requests"]}
     have_n = {r["method"] for r in base["notifications"]}
     extra_r = [r for r in evolved["requests"] if r["method"].startswith("verif/") and r["method"] not in have_r]
     extra_n = [r for r in evolved["notifications"] if r["method"].startswith("verif/") and r["method"] not in have_n]
+    byname = {}
+    for l in ("structures", "enumerations", "typeAliases"):
+        for d in evolved[l]:
+            byname[d["name"]] = (l, d)
+    for t in touched:
+        if t not in byname:
+            continue
+        found = 0
+        for lst, extra, have in ((evolved["requests"], extra_r, have_r), (evolved["notifications"], extra_n, have_n)):
+            for m in lst:
+                if found >= 2:
+                    break
+                if m["method"] in have or m in extra:
+                    continue
+                cl = closure_of(evolved, m, byname)
+                if t in cl and len(cl) < 60:          # small closures only: the corpus grows fast
+                    extra.append(m)
+                    found += 1
     if not extra_r and not extra_n:
         return base
     tmp = copy.deepcopy(evolved)
